@@ -2,6 +2,7 @@
 import importlib
 
 PROPS = {
+    "C14": [("u_chkbuild", "quick")],
     "C20": [("u_querytxt", "quick"), ("u_lowernames", "quick"), ("u_constrname", "quick"), ("u_qindex", "quick")],
     "C18": [("u_derive", "quick")],
     "C02": [("u_gopkgs", "quick"), ("u_rttypes", "quick"), ("u_swbind", "quick"), ("u_dynvt", "quick"), ("u_dceblk", "quick"), ("u_varname", "quick"), ("u_arrset", "quick"), ("u_capt", "quick"), ("u_fieldnames", "quick"), ("u_posfields", "quick")],
